@@ -10,4 +10,6 @@ require (
 	golang.org/x/sys v0.0.0-20190726091711-fc99dfbffb4e
 )
 
+require github.com/xi2/xz v0.0.0-20171230120015-48954b6210f8 // indirect
+
 replace github.com/polydawn/rio => /repo
